@@ -87,6 +87,8 @@ pub enum Ev {
     PutGet(usize, usize),
     /// find_node(target of the key) and a get of the key on the same node in the same instant
     GetJoin(usize, usize),
+    /// a node comes up at the address of a dead entry
+    Start(usize, bool, Vec<usize>),
 }
 
 impl Ev {
@@ -102,6 +104,7 @@ impl Ev {
             Ev::Get(r, k) => format!("EGet {}%nat {}%nat", r, k),
             Ev::PutGet(r, k) => format!("EPutGet {}%nat {}%nat", r, k),
             Ev::GetJoin(r, k) => format!("EGetJoin {}%nat {}%nat", r, k),
+            Ev::Start(d, s, b) => format!("EStart {}%nat {} {}", d, boolean(*s), nats(b)),
         }
     }
 }
@@ -135,6 +138,11 @@ fn run_event(net: &mut Net, ev: &Ev, seqs: &mut std::collections::HashMap<usize,
         }
         Ev::Dead => {
             net.spawn_dead();
+            (None, vec![])
+        }
+        Ev::Start(d, server, boots) => {
+            net.start_dead(*d, *server, boots);
+            net.quiesce();
             (None, vec![])
         }
         Ev::Lookup(j, find) => {
@@ -609,11 +617,29 @@ pub fn generate(seed: u64, scale: usize, which: &str) -> Cases {
                 Ev::Dead,
                 Ev::Join(true, vec![2]),
                 Ev::Join(true, vec![0, 3]),
-                Ev::Lookup(3, true),
                 Ev::Join(false, vec![3]),
                 Ev::Lookup(1, false),
+                // and then its bootstrap address comes alive after all
+                Ev::Start(2, true, vec![0]),
             ];
             o.push("retry-after-a-visitor", run_case(&mut rr, plan));
+        }
+        // a bootstrap server that starts after its joiners: they keep retrying and get in once it is up
+        for first_like in [false] {
+            let mut rr = r.fork();
+            let plan = vec![
+                Ev::Join(true, vec![]),
+                Ev::Join(true, vec![0]),
+                Ev::Dead,
+                Ev::Join(true, vec![2]),
+                Ev::Join(false, vec![2]),
+                // the late server bootstraps from the network (a second 'first node' would be a second network)
+                Ev::Start(2, true, if first_like { vec![] } else { vec![0] }),
+                Ev::Lookup(3, true),
+                Ev::Lookup(1, false),
+                Ev::Join(true, vec![3]),
+            ];
+            o.push("bootstrap-server-starts-late", run_case(&mut rr, plan));
         }
         // twenty servers, the last one given three dead addresses before the live one: its bootstrap lookup has to
         // spend requests on the dead addresses and still query every server
